@@ -18,7 +18,7 @@ EXPLANATION = (
     "nbins+1 edges (linear / log) and midpoints as centres. R5: dimension checks are called on the inputs and every "
     "library attribute on the path resolves (L1). Not decided: floating-point summation order of duplicates.")
 RULE_TEXT = "one obligation per (routine, mode, E) class table / sibling pair / bin-definition clause"
-FLOORS = {'C10.R1': 4, 'C10.R2': 1, 'C10.R3': 3, 'C10.R4': 3, 'C10.R5': 2}
+FLOORS = {'C10.R1': 4, 'C10.R2': 1, 'C10.R3': 3, 'C10.R4': 3, 'C10.R5': 2, 'C10.R7': 4}
 PINNED_EXPECT = [('C10.R1', 'emd.spectra.hilberthuang', 'class -> bin'),
                  ('L1', 'emd.support.ensure_equal_dims', 'numpy.alltrue')]
 
@@ -43,6 +43,8 @@ def run(ctx):
     ctx.rule(c19.rule_layout_only, 'C10.R6', names=('ensure_2d',))
     l1.rule_lib_attrs(ctx, 'L1', [HH, HH1, 'emd.spectra.define_hist_bins', 'emd.spectra.define_hist_bins_from_data'],
                       'Hilbert-Huang spectrum')
+    from . import l2
+    ctx.rule(l2.rule_layout, 'C10.R7', [HH, HH1])
 
 
 def _spec_row(p, E):
